@@ -35,7 +35,7 @@ def _required():
             "entry:simple", "entry_pwr:1/4", "entry_pwr:inner_block", "layout:reim", "layout:cplx", "dir:fft", "dir:ifft"]
     req += ["simple:%s_%s_simple" % (lay, d) for lay in ("reim", "cplx") for d in ("fft", "ifft")]
     req += ["fam:" + f for f in ("impulse", "constant", "resonant", "dynrange", "random")]
-    req += ["simple:after-other-dimension"]
+    req += ["simple:after-other-dimension", "scale:2^-1018..2^-960", "scale:2^960..2^1024"]
     req += ["entry:precomp_buffer", "pbuf:reim", "pbuf:cplx"] + ["pbuf:k%d" % k for k in range(0, 13)]
     # every implementation at every size at which the library's dispatcher can select it
     for k in range(0, 17):
